@@ -72,9 +72,28 @@ def tensor_order(seed):
     return bad
 
 
+def size_limit():
+    from qucumber.nn_states import PositiveWaveFunction
+
+    class Small(PositiveWaveFunction):
+        max_size = property(lambda self: 3)
+    bad = []
+    s4 = Small(4, 1, gpu=False)
+    for call, refusal, tag in ((lambda: s4.generate_hilbert_space(), True, "own size 4 > limit 3 (no size given)"), (lambda: s4.generate_hilbert_space(4), True, "size 4 > limit 3"),
+                               (lambda: s4.generate_hilbert_space(3), False, "size 3 == limit")):
+        try:
+            call()
+            got = False
+        except ValueError:
+            got = True
+        if got != refusal:
+            bad.append(({"case": tag}, "refused=%s, expected %s" % (got, refusal), "size limit"))
+    return bad
+
+
 def bounded(tier, seed):
     n = 4 if tier == "quick" else 40
-    f = native_check(seed, n) + tensor_order(seed)
+    f = native_check(seed, n) + tensor_order(seed) + size_limit()
     return {"driver": "drivers/C19.native_check", "label": "bounded", "evaluations": n, "failures": len(f),
             "bound": "%d sets of random data files (any N, n, alphabet incl. a custom letter, complex targets) written with numpy and read back through load_data / load_data_DM" % n,
             "first_failures": f[:3]}
